@@ -65,6 +65,13 @@ func report(prop string, cfg *PropConfig, w *World, results []*FnResult, missing
 		all = append(all, r.Obls...)
 	}
 	sort.SliceStable(all, func(i, j int) bool { return all[i].Name < all[j].Name })
+	if verbose {
+		for _, r := range results {
+			for _, n := range r.Notes {
+				fmt.Printf("  note[%s]: %s\n", r.Fn, n)
+			}
+		}
+	}
 	perBackend := map[string]int{}
 	var solverTime float64
 	var proved, binding, violations int
